@@ -523,6 +523,27 @@ def _out_units(ctx, in_units_union, allow_broadcast=True, allow_squeeze=True):
                 units.append(("leaf", ctx.new_axis(), False))
     if ctx.b(0.7):
         units = ctx.perm(units)
+    if getattr(ctx, "flags", {}).get("bcast_heavy"):
+        # a contiguous block of 2-4 output-only axes (numbers, unit axes, fresh axes): material for einx's common-
+        # subexpression pass, whose candidates overlap when such axes sit next to each other inside a composition
+        block = []
+        for _ in range(ctx.draw(st.integers(2, 4))):
+            r = ctx.draw(st.integers(0, 3))
+            if r == 0:
+                block.append(("leaf", ctx.new_num(1), False))
+            elif r <= 2:
+                block.append(("leaf", ctx.new_num(ctx.draw(st.sampled_from(LENS_NO1))), False))
+            else:
+                block.append(("leaf", ctx.new_axis(), False))
+        if ctx.b(0.6):
+            # ... inside one composition, possibly with a nested one: "(2 (1) 5)"
+            items = [u[1] for u in block]
+            if ctx.b(0.5):
+                j = ctx.draw(st.integers(0, len(items) - 1))
+                items[j] = ["flat", [items[j]]]
+            block = [("leaf", ["flat", items], False)]
+        pos = ctx.draw(st.integers(0, len(units)))
+        units = units[:pos] + block + units[pos:]
     return units
 
 
